@@ -454,6 +454,18 @@ def reference(ch, V, src_ty, K, V2=None):
     return done
 
 
+def initial_term(name, init, pnames):
+    """the value a state variable has before the loop (used for variables no loop carries)"""
+    if isinstance(init, tuple):
+        return init
+    if name == "ITER":
+        return ("p", 1)
+    if name == "NTH":
+        return ("p", pnames["nth"])
+    j = int("".join(ch_ for ch_ in name if ch_.isdigit()))
+    return ("p", pnames[j])
+
+
 def state_vars(ch):
     """abstract state variables in allocation order, with their expected initial value kind"""
     out = []
@@ -512,9 +524,29 @@ def validate(ctx, prog, ch, idx, pnames, src_ty, K):
     loop_paths = [p for p in paths if any(e[0] == "loop" for e in p.events)]
     hdrs = {e[1] for p in loop_paths for e in p.events if e[0] == "loop"}
     if not hdrs and not b.loops():
-        # every path leaves after the first element (e.g. `next()` without a filtering adapter): no loop is left in the MIR
-        ctx.instance("TV-NOLOOP", key, nontrivial=False)
-        return True
+        # every path leaves after the first element (e.g. `next()` without a filtering adapter): no loop is left in the MIR.
+        # The schema must then have no continuing path either, and its exits must be the function's paths.
+        V = {n: initial_term(n, i, pnames) for n, i in state_vars(ch)}
+        exp = reference(ch, V, src_ty, K)
+        ok = True
+        if any(r.kind != "exit" for r in exp):
+            ctx.violation("TV", key + "|loops", "chain %s: the schema continues with the next element on some path, the generated code has no loop" % key)
+            ok = False
+        exp_s = {sig(r.conds, r.events, {}, "exit", r.value) for r in exp if r.kind == "exit"}
+        got_s = set()
+        for p in paths:
+            if p.kind != "return":
+                continue
+            evs = [e[2] for e in p.events if e[0] == "call" and e[1].startswith(W + "::")]
+            got_s.add(sig(p.conds, evs, {}, "exit", p.value))
+        if exp_s != got_s:
+            ctx.violation("TV", key, "chain `%s` (no loop): the generated paths differ from the std-derived schema (%d expected not generated, %d generated "
+                          "not expected)" % (key, len(exp_s - got_s), len(got_s - exp_s)),
+                          detail={"source": source_of(ch, idx, K)[0], "not_generated": [str(x)[:400] for x in list(exp_s - got_s)[:3]],
+                                  "unexpected": [str(x)[:400] for x in list(got_s - exp_s)[:3]]})
+            ok = False
+        ctx.instance("TV-NOLOOP", key, nontrivial=True)
+        return ok
     if len(hdrs) != 1:
         ctx.violation("TV", key + "|loops", "chain %s expands to %d loops, expected one" % (key, len(hdrs)))
         return False
@@ -548,18 +580,15 @@ def validate(ctx, prog, ch, idx, pnames, src_ty, K):
         if r.kind == "back":
             carried_names |= {k for k, v in r.upd.items() if v != V0[k]}
     ret_carried = "RET" in carried_names
-    if any(n != "RET" and n not in carried_names for n, _ in all_vars if n != "ITER"):
-        ctx.instance("TV-SKIP", key, nontrivial=False, sample={"chain": key, "why": "a counter is never carried around the loop (always-breaking consumer)"})
-        return True
-    exp_vars = [(n, i) for n, i in all_vars if n != "RET" or ret_carried]
+    exp_vars = [(n, i) for n, i in all_vars if n in carried_names or n == "ITER"]
     if len(carried) != len(exp_vars):
         ctx.violation("TV", key + "|state", "chain %s: generated loop carries %d state variables, the reference schema has %d (%s)" % (
             key, len(carried), len(exp_vars), [v for v, _ in exp_vars]), detail={"carried": [b.local_name(l) or l for l in carried]})
         return False
     V = {name: ("L", l) for (name, _), l in zip(exp_vars, carried)}
     for n, i in all_vars:
-        if n == "RET" and not ret_carried:
-            V["RET"] = i
+        if n not in V:
+            V[n] = initial_term(n, i, pnames)      # not loop state: keeps the value it had before the loop
     # initial values
     init = {}
     for p in loop_paths:
@@ -680,9 +709,6 @@ def validate_nested(ctx, prog, ch, idx, pnames, src_ty, K):
         ctx.violation("TV", key + "|loops", "chain %s: the schema %s an inner loop, the generated code %s" % (
             key, "has" if has_inner else "has no", "has one" if H2 is not None else "has none"))
         return False
-    if any(n not in ("RET", "ITER", "SUB") and n not in outer_names for n in names):
-        ctx.instance("TV-SKIP", key, nontrivial=False, sample={"chain": key, "why": "a counter is never carried around a loop (always-breaking consumer)"})
-        return True
     used_o, used_i = set(), set()
     for p in loop_paths:
         for c in p.conds:
@@ -720,8 +746,8 @@ def validate_nested(ctx, prog, ch, idx, pnames, src_ty, K):
                 ctx.violation("TV", key + "|state", "chain %s: state %s is local %s in the outer loop but %s in the inner loop" % (key, n, V[n][1], V2[n][1]))
                 return False
     for n, i in all_vars:
-        if n == "RET" and "RET" not in V:
-            V["RET"] = i
+        if n not in V and n != "SUB":
+            V[n] = initial_term(n, i, pnames)      # not loop state: keeps the value it had before the loops
     # initial values at the outer header
     init = {}
     for p in loop_paths:
